@@ -16,4 +16,4 @@ echo "--- demo WITHOUT the change (must pass)"
 (cd "$W" && git apply -R seed_patch.diff && go test $DEMO 2>&1 | tail -3; git apply seed_patch.diff) > "$D/demo_without.txt"; tail -2 "$D/demo_without.txt"
 echo "--- pinned tests still pass with the change? (agent reported; build check only here)"
 (cd "$W" && go build ./... && echo build-ok)
-/verif/tools/seedtest.sh "$D/patch.diff" "$@" | tee "$D/checks.txt"
+/verif/tools/seedtest_iso.sh "$W" "$@" | tee "$D/checks.txt"
